@@ -12,6 +12,7 @@ import (
 
 	"github.com/enbility/spine-go/api"
 	"github.com/enbility/spine-go/model"
+	"github.com/enbility/spine-go/util"
 	"pgregory.net/rapid"
 
 	"verifharness/gen"
@@ -489,6 +490,75 @@ func (m *machine) localChange(t *rapid.T) {
 	m.ops = append(m.ops, mode)
 }
 
+// rediscovery: a peer that has announced itself sends its detailed discovery data once more. Nothing is added or
+// removed by it: the registry stays as it is (entries can be deleted afterwards like before, notifications go to
+// the same subscribers).
+func (m *machine) rediscovery(t *rapid.T) {
+	pi := rapid.IntRange(0, len(m.w.Peers)-1).Draw(t, "peer")
+	p := m.w.Peers[pi]
+	if p.Ents == nil {
+		t.Skip("the peer has not announced itself")
+	}
+	p.Send(p.Msg(model.CmdClassifierTypeReply, p.NM(), world.LocalNM(), false, p.DiscoveryRef, model.CmdType{NodeManagementDetailedDiscoveryData: p.DiscoveryData(p.Ents, nil)}))
+	m.w.Sync()
+	m.w.Events.Drain()
+	for _, q := range m.w.Peers {
+		q.Cap.Drain()
+	}
+	m.logf("peer%d sends its discovery data again", pi+1)
+	m.ops = append(m.ops, "rediscovery")
+	m.checkRegistry(t, "rediscovery")
+}
+
+// subEntityGoesAndComes: a peer announces its sub entity [2,1] as removed and then as added again. The subscriptions
+// of client features of [2,1] go with it; every other entry - of the parent entity [2] in particular - stays.
+func (m *machine) subEntityGoesAndComes(t *rapid.T) {
+	pi := rapid.IntRange(0, len(m.w.Peers)-1).Draw(t, "peer")
+	p := m.w.Peers[pi]
+	if p.Ents == nil {
+		t.Skip("the peer has not announced itself")
+	}
+	var sub world.EntSpec
+	for _, e := range p.Ents {
+		if len(e.Addr) == 2 && e.Addr[0] == 2 && e.Addr[1] == 1 {
+			sub = e
+		}
+	}
+	if sub.Addr == nil {
+		t.Skip("no sub entity")
+	}
+	notify := func(change model.NetworkManagementStateChangeType, ent world.EntSpec) {
+		cmd := model.CmdType{Function: util.Ptr(model.FunctionTypeNodeManagementDetailedDiscoveryData), Filter: []model.FilterType{*model.NewFilterTypePartial()},
+			NodeManagementDetailedDiscoveryData: p.DiscoveryData([]world.EntSpec{ent}, &change)}
+		p.Send(p.Msg(model.CmdClassifierTypeNotify, p.NM(), world.LocalNM(), false, nil, cmd))
+		m.w.Sync()
+	}
+	notify(model.NetworkManagementStateChangeTypeRemoved, world.EntSpec{Addr: sub.Addr, Type: sub.Type})
+	prefix := regs.Ref{Ent: sub.Addr, Feat: 0}.String()
+	prefix = prefix[:strings.LastIndex(prefix, "/")+1]
+	for k := range m.subs {
+		if k.Peer == pi && strings.HasPrefix(k.Client, prefix) {
+			delete(m.subs, k)
+		}
+	}
+	for k := range m.binds {
+		if k.Peer == pi && strings.HasPrefix(k.Client, prefix) {
+			delete(m.binds, k)
+		}
+	}
+	m.logf("peer%d announces its sub entity %v as removed", pi+1, sub.Addr)
+	m.w.Events.Drain()
+	m.checkRegistry(t, "sub-entity-removed")
+	notify(model.NetworkManagementStateChangeTypeAdded, sub)
+	m.w.Events.Drain()
+	for _, q := range m.w.Peers {
+		q.Cap.Drain()
+	}
+	m.logf("peer%d announces its sub entity %v again", pi+1, sub.Addr)
+	m.ops = append(m.ops, "sub-entity")
+	m.checkRegistry(t, "sub-entity-added-again")
+}
+
 func (m *machine) bind(t *rapid.T) {
 	c := regs.DrawCall(t, m.w, "bind")
 	_, ok := m.w.Do(c, world.BindCall(m.w.ClientAddr(c), m.w.ServerAddr(c), c.Type))
@@ -586,6 +656,8 @@ func TestSubscriptions(t *testing.T) {
 			"overlapping": m.overlappingChanges,
 			"bind":        m.bind,
 			"remoteWrite": m.remoteWrite,
+			"rediscovery": m.rediscovery,
+			"subEntity":   m.subEntityGoesAndComes,
 		})
 		nt := m.maxSub >= 2 && m.change >= 1
 		world.Record(world.Hash(m.ops, regs.SortedKeys(m.subs)), nt, fmt.Sprintf("maxPeersSubscribed/%d", m.maxSub))
